@@ -244,6 +244,8 @@ def run_edit_tg(case):
         raise Violation("silence-not-silent", f"{what} printed {txt!r}")
     if mode == "warning" and leaves and not txt:
         raise Violation("warning-mismatch", f"{what}: entries leave the old span but nothing was printed")
+    if mode == "warning" and not leaves and not grows and txt:
+        raise Violation("warning-mismatch", f"{what}: nothing leaves its span, yet {txt!r} was printed")
     if list(res.tierNames) != [t["name"] for t in spec["tiers"]]:
         raise Violation("tier-set", f"{what}: {res.tierNames}")
     exact = spec.get("style") == "grid"
@@ -251,13 +253,15 @@ def run_edit_tg(case):
     for t, m, rt in zip(spec["tiers"], models_, res.tiers):
         models.compare_entries(snap_tier(rt)["entries"], m[0], exact, ops_, f"{what} tier {t['name']!r}")
     cl = ["tg_edit"] + (["tg_leaves_span"] if leaves else [])
+    if len({(t["minT"], t["maxT"]) for t in spec["tiers"]}) > 1:
+        cl.append("tiers_with_different_spans")
     return {"classes": cl, "nontrivial": leaves or any(m[4] for m in models_)}
 
 
 @st.composite
 def edit_tg_cases(draw):
     style = draw(gen.STYLES_ARITH)
-    spec = draw(gen.textgrid(style=style, max_tiers=3))
+    spec = draw(gen.textgrid(style=style, max_tiers=3, clean=draw(st.integers(0, 2)) > 0))  # not clean: tiers with spans of their own
     ts = sorted({t for tr in spec["tiers"] for e in tr["entries"] for t in e[:-1]})
     cands = [0.0, 0.5, 1.0, 2.0] + [-t for t in ts]
     return {"tg": spec, "offset": draw(st.sampled_from(cands)), "mode": draw(st.sampled_from(["silence", "silence", "warning", "error"]))}
